@@ -198,6 +198,43 @@ std::vector<LedgerEntry> ledger_live_of(int ses) {
     g_busy = false;
     return out;
 }
+// LeakSanitizer semantics for C08 ("process exit under LeakSanitizer"): a block that is still reachable from the
+// library's static storage - a correctly keyed process-wide cache, a lazily built table - is not a leak of the session
+// whose call happened to allocate it. Mark phase: the executable's .data/.bss are scanned for pointers into live library
+// blocks, then the marked blocks themselves. (Redzones of instrumented globals are read on purpose: no ASan here.)
+extern "C" { extern char __data_start[]; extern char _end[]; }
+__attribute__((no_sanitize("address"))) static void scan_range(const char *lo, const char *hi, const std::vector<std::pair<uintptr_t, uintptr_t>> &blocks, std::vector<uint8_t> &mark, std::vector<size_t> &work) {
+    lo = (const char *)(((uintptr_t)lo + 7) & ~(uintptr_t)7);
+    for (const char *p = lo; p + sizeof(void *) <= hi; p += sizeof(void *)) {
+        uintptr_t v = *(const uintptr_t *)p;
+        if (v < blocks.front().first || v >= blocks.back().second) continue;
+        size_t a = 0, b = blocks.size();
+        while (a < b) { size_t m = (a + b) / 2; if (blocks[m].second <= v) a = m + 1; else b = m; }
+        if (a < blocks.size() && blocks[a].first <= v && v < blocks[a].second && !mark[a]) { mark[a] = 1; work.push_back(a); }
+    }
+}
+
+std::vector<void *> ledger_reachable_from_statics() {
+    std::vector<void *> out;
+    if (!g_live || g_live->empty()) return out;
+    g_busy = true;
+    std::vector<std::pair<uintptr_t, uintptr_t>> blocks;
+    for (auto &kv : *g_live) blocks.push_back({(uintptr_t)kv.first, (uintptr_t)kv.first + (kv.second.size ? kv.second.size : 1)});
+    std::sort(blocks.begin(), blocks.end());
+    std::vector<uint8_t> mark(blocks.size(), 0);
+    std::vector<size_t> work;
+    // the ledger's own bookkeeping pointers live on the heap, not in .data/.bss, except g_live/g_prot themselves, which
+    // point to map objects, never to a library block
+    scan_range(__data_start, _end, blocks, mark, work);
+    while (!work.empty()) {
+        size_t i = work.back(); work.pop_back();
+        scan_range((const char *)blocks[i].first, (const char *)blocks[i].second, blocks, mark, work);
+    }
+    for (size_t i = 0; i < blocks.size(); i++) if (mark[i]) out.push_back((void *)blocks[i].first);
+    g_busy = false;
+    return out;
+}
+
 size_t ledger_live_count() { return g_live ? g_live->size() : 0; }
 std::vector<LedgerEvent> ledger_take_events() { std::vector<LedgerEvent> e; if (g_events) e.swap(*g_events); return e; }
 uint64_t ledger_lib_allocs() { return g_allocs; }
